@@ -24,11 +24,19 @@ import (
 // race detector their deliberately unsynchronised field turns every breach a
 // user would suffer from into a race report.
 func contractMode(r *common.Run, sk *sink) {
-	r.SetRule("each case = one 3-host cluster with three shards (regular, concurrent, on-disk state machine) under concurrent proposals, lookups (ReadLocalNode/StaleRead/SyncRead, PRNG-chosen slowness), periodic + requested snapshots, a partitioned follower that is repaired by snapshot, StopShard/StopReplica + restart, graceful host restart and final close under load; every state machine call is checked online (index order per incarnation, no forbidden overlap, nothing after Close, no entry delivered twice, on-disk SM never handed an entry at or below the index returned by Open); non-trivial = at least one stop/close happened while lookups were in flight and all three kinds saw snapshots; distinct by hash of per-kind call counts")
+	r.SetRule("each case = one 3-host cluster with three shards (regular, concurrent, on-disk state machine) under concurrent proposals, lookups (ReadLocalNode/StaleRead/SyncRead, PRNG-chosen slowness), periodic + requested snapshots, a partitioned follower that is repaired by snapshot, StopShard/StopReplica + restart, graceful host restart and final close under load; every state machine call is checked online (index order per incarnation, no forbidden overlap, nothing after Close, no entry delivered twice, on-disk SM never handed an entry at or below the index returned by Open); non-trivial = at least one stop/close happened while lookups were in flight and all three kinds saw snapshots; distinct by hash of per-kind call counts. Then catch-up cases: 3 replicas (+1 joining non-voting replica) of one PRNG-chosen state machine kind under continuous writes, 8-13 cycles of cutting off / crashing a follower until the log it misses is compacted, repair by file or streamed snapshot, requested and exported snapshots on all replicas, PrepareSnapshot and Sync dwelling 0-2 ms; same online monitors")
 	r.Assume("overlaps are judged by entry/exit stamps taken inside the user state machine methods; only overlaps forbidden by the documented contract are flagged (lookups overlapping updates are legal for concurrent and on-disk state machines)")
 	n := r.Pick(6, 120)
 	for _, c := range r.MyCases(n) {
 		runContract(r, sk, c, r.Rand("contract", c), r.SubSeed("contract-seed", c))
+		r.Flush()
+	}
+	// catch-up cycles (see replay.go): followers repaired by file or streamed snapshots while
+	// entries are applied, periodic Sync of on-disk state machines, requested and exported
+	// snapshots on every replica - with dwelling PrepareSnapshot / Sync so that an overlap the
+	// contract forbids lasts long enough to be seen by the online monitor
+	for _, c := range r.MyCases(r.Pick(12, 160)) {
+		runCatchUp(r, sk, c, r.Rand("catchup", c), r.SubSeed("catchup-seed", c))
 		r.Flush()
 	}
 }
